@@ -14,6 +14,11 @@ EXCLUDED = {'rxnk', 'm0nc'}      # regex delimiter not kept that can match diffe
 PREFIX = b'\xee\xdd\xcc'
 
 
+def optimized_specs(tier):
+    """every component alone, once more under python -O (assert statements stripped)"""
+    return [{'names': [c], 'wrapper': 'a'} for c in alphabet.COMPONENTS if c not in globals().get('EXCLUDED', ())]
+
+
 def decl_specs(tier):
     comps = [c for c in alphabet.COMPONENTS if c not in EXCLUDED]
     specs = []
@@ -172,6 +177,10 @@ def check_decl(dc, st, tier, only=None):
 
 def run(tier):
     st = ea.run(MODULE, tier)
+    from mc import ea_o
+    so = ea_o.run(MODULE, tier)         # every component alone once more under python -O (assert statements stripped)
+    st.merge(so)
+    st.notes.extend(so.notes)
     LADDER_NOTE = '; plus the shared size and structure ladders (mc/alphabet.py boundary_specs / structure_specs): lengths and counts 5, 8, 9, 16, 17, 32, 33, 64, 65, 128, 129, 255, 256, 257, 1024, 1025, 4096, 4097, 8192, 8193 behind one-, two- and three-byte length fields with their exact encodings (and the same cut short), constant counts and sizes 15..257 first in a packet, far positions (holes of 255..8192 bytes), chains of 4..8 references, lists of lists of lists, nine-byte integers, bit runs of 40/72/80 bits, declarations of 24 components and runs of 17..40 fixed fields, holders whose options differ from the held class, the nested class alone on the field-by-field loop'
     cov = ea.coverage(st, 'every declaration of the alphabet except the by-design exclusions (singles x 3 wrappers, pairs, %s, class options '
                           'endianness/align/search_buffer_length, generic code); all inputs up to the bound, start offsets 0..%d (0 only when positioning '
@@ -180,9 +189,14 @@ def run(tier):
                       (('triples over the reduced alphabet', 2) if tier == 'thorough' else ('pairs over the reduced alphabet', 1)),
                       {'overlapping_cases': st.n.get('overlapping', 0), 'disagreements_left_to_C06_C08': st.n.get('disagree', 0)})
     cov['rule'] += LADDER_NOTE
+    cov['rule'] += '; every component alone once more in child interpreters started with -O'
+    cov['programs_under_python_O'] = st.n.get('programs_under_O', 0)
     return {'stats': st, 'coverage': cov,
             'assumptions': ['consumed intervals come from the reference interpreter; cases on which unpack and the reference disagree are counted, not judged, here']}
 
 
 def replay(case):
+    if case.get('optimized') and sys.flags.optimize < 1:
+        from mc import ea_o
+        return ea_o.replay(MODULE, case)
     return ea.replay_decl(sys.modules[__name__], case)
